@@ -1,6 +1,7 @@
 import OnetVerif.Model.C16
 import OnetVerif.Proofs.C16
 import OnetVerif.Proofs.C16Sim
+import OnetVerif.Proofs.C16Dir
 import OnetVerif.Shapes
 /-! Property C16 — service storage returns what was saved, per service, across restarts.
 
@@ -249,6 +250,166 @@ theorem c16_version_roundtrip (known : List Bytes) (db : Db) (s : Bytes) (hr : R
     simp [hd]
   · intro h1 h2; unfold toInt32; omega
 
+
+/-! ### `Load` proper (decoded values), values whose encoding is the type id alone included -/
+
+private theorem lastSaved_decodable (known : List Bytes) (s k : Bytes) (evs : List Ev) (acc : Option Bytes)
+    (hdec : ∀ s' k' raw, Ev.call s' (.save k' raw) ∈ evs → decodable known raw = true)
+    (h0 : ∀ raw, acc = some raw → decodable known raw = true) :
+    ∀ raw, lastSaved s k evs acc = some raw → decodable known raw = true := by
+  induction evs generalizing acc with
+  | nil => exact h0
+  | cons e evs ih =>
+    have hrest : ∀ s' k' raw, Ev.call s' (.save k' raw) ∈ evs → decodable known raw = true :=
+      fun s' k' raw hm => hdec s' k' raw (List.mem_cons_of_mem _ hm)
+    cases e with
+    | restart l => exact ih acc hrest h0
+    | call s' op =>
+      cases op with
+      | save k' raw' =>
+        simp only [lastSaved]
+        split
+        · exact ih _ hrest (fun raw e => by
+            cases e; exact hdec s' k' raw' List.mem_cons_self)
+        · exact ih acc hrest h0
+      | _ => exact ih acc hrest h0
+
+/-- **c16_load_typed**: `Load` (the decoding load) of `k` by `s` after any history over `S` returns
+the value of the latest successful `Save` of `k` by `s` — never "nothing", never an error — as long as
+what was saved are encodings of registered types (`network.Marshal` output: a registered 16-byte
+type id followed by a body of *any* length, the empty body included); with no such save it returns
+what the directory held, and nothing if it held nothing. -/
+theorem c16_load_typed (known : List Bytes) (S : List Bytes) (hS : PairwiseIndep S) (evs : List Ev)
+    (hev : ∀ e ∈ evs, EvIn S e) (db : Db) (hr : ∀ t ∈ S, Ready db t) (s k : Bytes) (hs : s ∈ S)
+    (hdec : ∀ s' k' raw, Ev.call s' (.save k' raw) ∈ evs → decodable known raw = true)
+    (h0 : ∀ raw, content db (mainName s) k = some raw → decodable known raw = true) :
+    (step known (run known db evs).1 s (.load k)).2 =
+      match lastSaved s k evs (content db (mainName s) k) with
+      | none => .nothing
+      | some raw => .val raw := by
+  obtain ⟨_, h2, h3⟩ := c16_refines_map known S hS evs hev db hr (abs db) (fun _ _ => ⟨rfl, rfl, rfl⟩)
+  obtain ⟨g1, _, _⟩ := sim_step known hS _ _ hs h3 h2 (.load k)
+  rw [g1]
+  simp only [specStep, spec_main_run]
+  have hd := lastSaved_decodable known s k evs (content db (mainName s) k) hdec h0
+  show (match lastSaved s k evs (content db (mainName s) k) with
+      | none => Res.nothing
+      | some raw => if decodable known raw then .val raw else .errUnmarshal) = _
+  cases hl : lastSaved s k evs (content db (mainName s) k) with
+  | none => rfl
+  | some raw => simp [hd raw hl]
+
+/-- an encoding that is a registered type id and nothing else (a value without fields, or with
+empty lists only) is decodable: it loads as that value, not as "never saved" -/
+theorem c16_empty_body_is_a_value (known : List Bytes) (t : Bytes) (ht : t ∈ known) (hl : t.length = 16)
+    (db : Db) (s k : Bytes) (hr : Ready db s) (hk : validKey k) :
+    (step known (step known db s (.save k t)).1 s (.load k)).2 = .val t := by
+  obtain ⟨b, hb⟩ := Option.isSome_iff_exists.mp hr.1
+  have hd : decodable known t = true := by
+    simp [decodable, hl, List.take_of_length_le (Nat.le_of_eq hl), ht]
+  simp only [step, putIn_some db _ k t b hb, hk, if_true]
+  simp [getFrom, update, hd]
+
+/-! ### The data directory: file names, take-over of a legacy file, close and start again -/
+
+/-- **c16_dbfile_names**: the database file is named after the server's key alone; two keys give
+the same (legacy) name only if they are the same key, and — hexadecimal notation being injective —
+the names of two servers are apart as soon as their keys and the hashes of their keys are
+(`h` = SHA-256 in the code: collision and fixed-point freedom on the keys in use is the premise). -/
+theorem c16_dbfile_names (h : Bytes → Bytes) (pub q : Bytes) (hp : IsBytes pub) (hq : IsBytes q)
+    (hhp : IsBytes (h pub)) (hhq : IsBytes (h q)) :
+    (oldName pub = oldName q → pub = q) ∧
+    (newName h pub = newName h q → h pub = h q) ∧
+    (h pub ≠ pub → newName h pub ≠ oldName pub) ∧
+    (h q ≠ h pub → q ≠ h pub → h q ≠ pub → q ≠ pub → Apart h pub q) :=
+  ⟨fun e => dbName_inj hp hq e, fun e => dbName_inj hhp hhq e, self_apart h pub hp hhp,
+   apart_of_hash h pub q hp hq hhp hhq⟩
+
+/-- **c16_first_start**: what a server finds when it is made on a directory (`newServiceManager`):
+a file with the legacy name is taken over — it becomes the server's file, replacing one that has
+the new name already, and the legacy name is gone; without one the server's own file is opened as it
+is; without either a new database is created.  In all cases the contexts of the registered services
+are made and nothing stored is touched. -/
+theorem c16_first_start (h : Bytes → Bytes) (d : Dir) (pub : Bytes) (services : List Bytes)
+    (hself : newName h pub ≠ oldName pub) :
+    startOn h d pub services (oldName pub) = none ∧
+    (∀ c, d (oldName pub) = some c →
+      startOn h d pub services (newName h pub) = some (startServer c services)) ∧
+    (∀ c, d (oldName pub) = none → d (newName h pub) = some c →
+      startOn h d pub services (newName h pub) = some (startServer c services)) ∧
+    (d (oldName pub) = none → d (newName h pub) = none →
+      startOn h d pub services (newName h pub) = some (startServer Db.empty services)) ∧
+    ∀ n k, content ((startOn h d pub services (newName h pub)).getD Db.empty) n k = content (initialDb h d pub) n k := by
+  obtain ⟨f1, f2⟩ := startOn_file h d pub services hself
+  refine ⟨f2, ?_, ?_, ?_, ?_⟩
+  · intro c hc; rw [f1]; simp [initialDb, hc]
+  · intro c ho hc; rw [f1]; simp [initialDb, ho, hc]
+  · intro ho hc; rw [f1]; simp [initialDb, ho, hc]
+  · intro n k; rw [f1]; exact content_startServer _ _ _ _
+
+/-- **c16_dir_refines_db**: from its first start on, everything the server with key `pub` does on a
+data directory — calls of its services, being closed (keeping its file) and started again any number
+of times with any services, while servers with other keys are started on, use and are closed on the
+same directory — returns exactly what the database history `proj pub` returns on the database the
+server found at its first start; its file holds the database after that history; and no legacy file
+re-appears.  (This is where "a restart leaves the contents alone", which `run` builds in, is proved
+from the file operations of the code.) -/
+theorem c16_dir_refines_db (h : Bytes → Bytes) (known : List Bytes) (pub : Bytes)
+    (hself : newName h pub ≠ oldName pub) (d : Dir) (srv : Server) (hsrv : srv.pub = pub) (services : List Bytes)
+    (rest : List DEv) (hok : ∀ e ∈ rest, Fits h pub e) :
+    resultsOf pub (drun h known d (.start srv services :: rest)).2 =
+      (run known (initialDb h d pub) (.restart services :: proj pub rest)).2 ∧
+    (drun h known d (.start srv services :: rest)).1 (newName h pub) =
+      some (run known (initialDb h d pub) (.restart services :: proj pub rest)).1 ∧
+    (drun h known d (.start srv services :: rest)).1 (oldName pub) = none := by
+  obtain ⟨f1, f2⟩ := startOn_file h d pub services hself
+  simp only [drun, run, hsrv]
+  exact dir_sim h known pub hself rest hok _ _ f1 f2
+
+/-- **c16_restart_same_directory**: a value a service saved is what a raw load returns later — also
+after the server was closed and started again on the same data directory, any number of times, with
+other servers using the directory in between — until the same service overwrites it; a key never
+saved returns what the server found in the directory at its first start (the values a file with the
+legacy name held, if there was one; nothing on a fresh directory). -/
+theorem c16_restart_same_directory (h : Bytes → Bytes) (known : List Bytes) (S : List Bytes)
+    (hS : PairwiseIndep S) (pub : Bytes) (hself : newName h pub ≠ oldName pub) (d : Dir) (srv : Server)
+    (hsrv : srv.pub = pub) (rest : List DEv) (hok : ∀ e ∈ rest, Fits h pub e)
+    (hev : ∀ e ∈ proj pub rest, EvIn S e) (s k : Bytes) (hs : s ∈ S) :
+    ∃ db', (drun h known d (.start srv S :: rest)).1 (newName h pub) = some db' ∧
+      (step known db' s (.loadRaw k)).2 =
+        match lastSaved s k (proj pub rest) (content (initialDb h d pub) (mainName s) k) with
+        | none => .nothing
+        | some raw => .val raw := by
+  obtain ⟨_, g2, _⟩ := c16_dir_refines_db h known pub hself d srv hsrv S rest hok
+  refine ⟨_, g2, ?_⟩
+  simp only [run]
+  have hr : ∀ t ∈ S, Ready (startServer (initialDb h d pub) S) t := fun t ht => ready_startServer _ _ t (Or.inr ht)
+  rw [c16_load_latest known S hS (proj pub rest) hev _ hr s k hs, content_startServer]
+
+/-- on a fresh directory: nothing but what the service itself saved -/
+theorem c16_fresh_directory (h : Bytes → Bytes) (pub : Bytes) (n k : Bytes) :
+    content (initialDb h Dir.empty pub) n k = none := rfl
+
+/-- **c16_tmp_dir_forgets** (so that nobody reads more into the theorems above than they say): a
+server made for a temporary directory (`newServer` with a path: the test helpers of local.go)
+removes its file when it is closed; started again on the same directory it finds a new, empty
+database.  The restart clause of the property is about servers made without a path. -/
+theorem c16_tmp_dir_forgets (h : Bytes → Bytes) (d : Dir) (pub : Bytes) (services : List Bytes)
+    (hself : newName h pub ≠ oldName pub) (hold : d (oldName pub) = none) :
+    closeOn h d { pub := pub, delDb := true } (newName h pub) = none ∧
+    startOn h (closeOn h d { pub := pub, delDb := true }) pub services (newName h pub) =
+      some (startServer Db.empty services) := by
+  have hc : closeOn h d { pub := pub, delDb := true } (newName h pub) = none := by
+    simp [closeOn, setFile_same]
+  refine ⟨hc, ?_⟩
+  have ho : closeOn h d { pub := pub, delDb := true } (oldName pub) = none := by
+    rw [closeOn_other _ _ _ _ (by simpa using hself.symm)]; exact hold
+  exact (c16_first_start h _ pub services hself).2.2.2.1 ho hc
+
+/-- a server that keeps its file: `closeOn` changes nothing at all -/
+theorem c16_close_keeps (h : Bytes → Bytes) (d : Dir) (pub : Bytes) :
+    closeOn h d { pub := pub, delDb := false } = d := by simp [closeOn]
+
 /-! ### Non-vacuity -/
 
 /-- `"c16a"`, `"c16b"`, `"c16svc"` -/
@@ -271,6 +432,36 @@ example : lastSaved [1] [2] [.call [1] (.save [2] [7]), .restart [[1]], .call [3
   decide
 
 example : toInt32 5 = 5 ∧ toInt32 2147483648 = -2147483648 ∧ toInt32 (4294967296 + 5) = 5 := by decide
+
+
+/-- a hash under which two keys and their hashes are all different: the premises of
+`c16_dbfile_names` / `Fits` can be met (in the code the hash is SHA-256) -/
+example : Apart (fun b => 0 :: b) [1, 2] [3, 4] ∧ newName (fun b => 0 :: b) [1, 2] ≠ oldName [1, 2] := by
+  constructor
+  · exact apart_of_hash _ _ _ (by decide) (by decide) (by decide) (by decide)
+      (by decide) (by decide) (by decide) (by decide)
+  · exact self_apart _ _ (by decide) (by decide) (by decide)
+
+/-- a directory history the restart theorem speaks about: start, save, close, another server uses the
+directory, start again -/
+example : ∀ e ∈ [DEv.call [1, 2] [97] (.save [107] [7]), .close { pub := [1, 2], delDb := false },
+      .start { pub := [3, 4], delDb := true } [[97]], .call [3, 4] [97] (.save [107] [8]),
+      .close { pub := [3, 4], delDb := true }, .start { pub := [1, 2], delDb := false } [[97]]],
+    Fits (fun b => 0 :: b) [1, 2] e := by
+  have ha : Apart (fun b => 0 :: b) [1, 2] [3, 4] :=
+    apart_of_hash _ _ _ (by decide) (by decide) (by decide) (by decide) (by decide) (by decide) (by decide) (by decide)
+  intro e he
+  simp only [List.mem_cons, List.not_mem_nil, or_false] at he
+  rcases he with rfl | rfl | rfl | rfl | rfl | rfl
+  · exact Or.inl rfl
+  · exact Or.inl ⟨rfl, rfl⟩
+  · exact Or.inr ha
+  · exact Or.inr ha
+  · exact Or.inr ha
+  · exact Or.inl rfl
+
+/-- a type id alone is a decodable encoding -/
+example : decodable [List.replicate 16 7] (List.replicate 16 7) = true := by decide
 
 /-! ### the code regions the model stands for
 Regenerated from /repo's source on every run (`harness/cmd/astfacts` → `OnetVerif/Shapes.lean`): the
